@@ -71,3 +71,22 @@ def orInt (a b : Int) : Int := (BitVec.ofInt 64 a ||| BitVec.ofInt 64 b).toInt
 def xorInt (a b : Int) : Int := (BitVec.ofInt 64 a ^^^ BitVec.ofInt 64 b).toInt
 
 end Gotlcp.Go
+
+namespace Gotlcp.Go
+
+/-- Library functions the translator models by a parameter: the generated definitions that call
+them take `(ext : Extern)` and the theorems quantify over every `ext`. -/
+structure Extern where
+  /-- `hmac.New(sm3.New, key)`, `Write`s, `Sum(nil)`: the MAC of the concatenated input -/
+  hmacSM3 : List (BitVec 8) → List (BitVec 8) → List (BitVec 8)
+
+/-- a keyed hash object between `hmac.New` and `Sum`: its key and the input written so far -/
+structure Hmac where
+  key : List (BitVec 8) := []
+  input : List (BitVec 8) := []
+deriving Repr, DecidableEq
+
+/-- `subtle.ConstantTimeCompare(x, y)`: 1 when equal, else 0 (timing is not modelled) -/
+def constantTimeCompare (x y : List (BitVec 8)) : Int := if x = y then 1 else 0
+
+end Gotlcp.Go
